@@ -434,7 +434,8 @@ def parse(expr):
 
     def remove_backticks(expr):
         if not isinstance(expr, var):
-            return expr
+            # not a variable (a subscript or lookup): no substitution, descend
+            return None
         varname = expr.name
         if varname.startswith("`") and varname.endswith("`"):
             return var(varname[1:-1])
